@@ -88,6 +88,22 @@ Fixpoint parse_elems (fuel : nat) (d : list Z) (acc : list (Z * list Z)) : optio
       end
   end.
 
+(* what the dictionary holds when the loop of _parse_and_check_elements raises: it was emptied before the loop and
+   filled with the elements parsed so far *)
+Fixpoint parse_prefix (fuel : nat) (d : list Z) (acc : list (Z * list Z)) : list (Z * list Z) :=
+  match fuel with
+  | O => acc
+  | S k =>
+      match d with
+      | [] => acc
+      | [_] => acc
+      | eid :: elen :: rest =>
+          if (1 <=? eid) && (eid <=? 3)
+          then parse_prefix k (skipn (Z.to_nat elen) rest) (elems_set eid (firstn (Z.to_nat elen) rest) acc)
+          else acc
+      end
+  end.
+
 Definition remove_first (x : Z) (l : list Z) : list Z :=
   (fix go l := match l with [] => [] | y :: t => if y =? x then t else y :: go t end) l.
 
@@ -140,7 +156,10 @@ Definition ow_new_data (sc : info * client) (id : Z) (o : ow) (addr : Z) (data :
         if crc8 (removelast data) =? crc then
           match parse_elems (S (length data)) (removelast (skipn 2 data)) [] with
           | Some el => finish (mkOW (ow_upd o) true (ow_hdr o) el)
-          | None => (sc, [IRaise])                          (* KeyError / struct.error: nothing finished *)
+          | None =>                                         (* KeyError / struct.error: nothing finished; the dictionary
+                                                               was emptied and holds the elements parsed so far *)
+              let el := parse_prefix (S (length data)) (removelast (skipn 2 data)) [] in
+              ((set_mems s (set_ow id (mkOW (ow_upd o) (ow_valid o) (ow_hdr o) el) (i_mems s)), c), [IRaise])
           end
         else finish o
     end
